@@ -1,9 +1,189 @@
-(* C15 - the job runs only on a full, live assembly and checkpointing resumes. Statements only (first version). *)
+(* C15 - the job runs only on a full, live assembly and checkpointing resumes. Statements only.
+   Model: Model/JobSM.v (instance [current] = the code after the repairs D18a/D18b/D30; [original] = before).
+   [exec c l] is the state after ANY history l of registrations (= heartbeats), deregistrations, clock
+   advances (heartbeat expiry), deployment endings (ok / failed), checkpoint ticks and acks: faults during a
+   deployment and during an in-flight checkpoint are histories like any other.
+   "Eventually" of the property text is stated as bounded response: given the tick and the acks of the members,
+   completion follows within exactly those steps; real time-outs are exercised by the harness, not proved. *)
 From Coq Require Import List NArith Bool.
-From RV Require Import Model.JobSM.
+From RV Require Import Model.JobSM Proofs.C15_JobSM.
 Import ListNotations.
 Open Scope N_scope.
 
-Theorem deploy_count_first : forall c s, length (d_ops (hd (MkDep [] [] [] true) (snd (start_begin c s)))) = length (firstn (wc c) (ops s)).
-Proof. intros. reflexivity. Qed.
-Print Assumptions deploy_count_first.
+(* ---- deploy_only_full_live: every Deploy fan-out goes to exactly WorkerCount distinct operators and WorkerCount
+   distinct source runners, each registered and within the heartbeat deadline in the state that formed the assembly. *)
+Theorem deploy_only_full_live : forall c l o d,
+  let s' := fst (step c (exec c l) o) in
+  In d (o_deps (snd (step c (exec c l) o))) ->
+  length (d_ops d) = wc c /\ length (d_srs d) = wc c /\ NoDup (d_ops d) /\ NoDup (d_srs d) /\
+  (forall n, In n (d_ops d) -> In n (ops s') /\ live_in c s' (true, n)) /\
+  (forall n, In n (d_srs d) -> In n (srs s') /\ live_in c s' (false, n)).
+Proof. exact deploy_only_full_live_proof. Qed.
+Print Assumptions deploy_only_full_live.
+
+(* ---- unhealthy_leaves_running: whenever the job has looked at its cluster (any registration, deregistration or
+   deployment ending) and is Running, every member of its assembly is registered and within the deadline ... *)
+Theorem unhealthy_leaves_running : forall c l o s1,
+  pre (exec c l) o = Some s1 ->
+  let s' := fst (step c (exec c l) o) in
+  stat s' = Running ->
+  (forall n, In n (a_ops s') -> In n (ops s') /\ live_in c s' (true, n)) /\
+  (forall n, In n (a_srs s') -> In n (srs s') /\ live_in c s' (false, n)).
+Proof. exact running_only_live_proof. Qed.
+Print Assumptions unhealthy_leaves_running.
+
+(* ... so a deregistration of a member stops the use of the assembly at once ... *)
+Theorem deregistered_operator_pauses : forall c l n,
+  stat (exec c l) = Running -> In n (a_ops (exec c l)) -> stat (fst (step c (exec c l) (ODeregOp n))) = Paused.
+Proof. exact deregistered_operator_pauses_proof. Qed.
+Print Assumptions deregistered_operator_pauses.
+
+Theorem deregistered_runner_pauses : forall c l n,
+  stat (exec c l) = Running -> In n (a_srs (exec c l)) -> stat (fst (step c (exec c l) (ODeregSr n))) = Paused.
+Proof. exact deregistered_runner_pauses_proof. Qed.
+Print Assumptions deregistered_runner_pauses.
+
+(* ... and a member whose last heartbeat is older than the deadline stops it at the next event of any other node. *)
+Theorem expired_operator_pauses : forall c l n t o s1,
+  stat (exec c l) = Running -> In n (a_ops (exec c l)) ->
+  hb_get (true, n) (hb (exec c l)) = Some t -> t + deadline c < now (exec c l) ->
+  pre (exec c l) o = Some s1 -> o <> ORegOp n ->
+  stat (fst (step c (exec c l) o)) = Paused.
+Proof. exact expired_operator_pauses_proof. Qed.
+Print Assumptions expired_operator_pauses.
+
+Theorem expired_runner_pauses : forall c l n t o s1,
+  stat (exec c l) = Running -> In n (a_srs (exec c l)) ->
+  hb_get (false, n) (hb (exec c l)) = Some t -> t + deadline c < now (exec c l) ->
+  pre (exec c l) o = Some s1 -> o <> ORegSr n ->
+  stat (fst (step c (exec c l) o)) = Paused.
+Proof. exact expired_runner_pauses_proof. Qed.
+Print Assumptions expired_runner_pauses.
+
+(* StartCheckpoint goes nowhere unless the job is Running, and then to the runners of its assembly *)
+Theorem tick_only_running : forall c s,
+  o_started (snd (step c s OTick)) <> [] -> stat s = Running /\ o_started (snd (step c s OTick)) = a_srs s.
+Proof. exact tick_only_running_proof. Qed.
+Print Assumptions tick_only_running.
+
+(* ---- redeploy_from_latest: a deployment addresses every member of the new assembly, tells every operator the
+   store's CurrentCheckpoint, and the splitter resumes from that same checkpoint when the deployment succeeds;
+   it happens as soon as the job is waiting and enough nodes are registered; the current checkpoint is the latest
+   published one (publications strictly increase it). *)
+Theorem redeploy_from_latest : forall c l o d,
+  let s' := fst (step c (exec c l) o) in
+  In d (o_deps (snd (step c (exec c l) o))) ->
+  stat s' = Starting /\ d_ops d = a_ops s' /\ d_srs d = a_srs s' /\
+  d_ck d = map (fun _ => completed (sto s')) (d_ops d) /\ dep_ck s' = completed (sto s').
+Proof. exact redeploy_from_latest_proof. Qed.
+Print Assumptions redeploy_from_latest.
+
+Theorem splitter_resumes_from_deployed_checkpoint : forall c s,
+  stat s = Starting -> o_split (snd (step c s (OFin true))) = dep_ck s + 1.
+Proof. exact splitter_resumes_from_deployed_checkpoint_proof. Qed.
+Print Assumptions splitter_resumes_from_deployed_checkpoint.
+
+Theorem redeploy_when_enough : forall c l o s1,
+  pre (exec c l) o = Some s1 -> stat s1 = Init \/ stat s1 = Paused ->
+  let s' := fst (step c (exec c l) o) in
+  (stat s' = Starting /\ exists d, o_deps (snd (step c (exec c l) o)) = [d]) \/
+  (stat s' = stat s1 /\ ((length (ops s') < wc c)%nat \/ (length (srs s') < wc c)%nat)).
+Proof. exact redeploy_when_enough_proof. Qed.
+Print Assumptions redeploy_when_enough.
+
+Theorem published_is_newer : forall c l o,
+  completed (sto (exec c l)) <= completed (sto (fst (step c (exec c l) o))) /\
+  (o_published (snd (step c (exec c l) o)) <> 0 ->
+   completed (sto (fst (step c (exec c l) o))) = o_published (snd (step c (exec c l) o)) /\
+   completed (sto (exec c l)) < o_published (snd (step c (exec c l) o))).
+Proof. exact published_is_newer_proof. Qed.
+Print Assumptions published_is_newer.
+
+(* ---- checkpoints_resume (repaired code: neither quirk): after ANY history that leaves the job Running - whatever
+   failed before, during a deployment or with a checkpoint in flight - a tick starts a fresh checkpoint on the
+   runners of the running assembly, and the acks of its members, in any order, are all accepted and publish it. *)
+Theorem checkpoints_resume : forall c l acks,
+  q_keep_pending (qk c) = false -> q_splitters_accumulate (qk c) = false -> (0 < wc c)%nat ->
+  let s := exec c l in
+  stat s = Running -> pend (sto s) = None ->
+  let id := ctr (sto s) + 1 in
+  NoDup acks -> (forall a, In a acks <-> member_ack s id a) ->
+  let s1 := fst (step c s OTick) in
+  let r := run c s1 acks in
+  o_started (snd (step c s OTick)) = a_srs s /\ o_cid (snd (step c s OTick)) = id /\
+  completed (sto s) < id /\
+  pend (sto (fst r)) = None /\ completed (sto (fst r)) = id /\
+  Forall (fun b => o_res b = 0) (snd r) /\ (exists b, In b (snd r) /\ o_published b = id) /\
+  stat (fst r) = Running.
+Proof. exact checkpoints_resume_proof. Qed.
+Print Assumptions checkpoints_resume.
+
+(* a checkpoint still in flight in a Running state belongs to the running assembly (never to a lost one), and the
+   acks still missing complete it *)
+Theorem checkpoints_resume_inflight : forall c l p acks,
+  q_keep_pending (qk c) = false -> q_splitters_accumulate (qk c) = false ->
+  let s := exec c l in
+  stat s = Running -> pend (sto s) = Some p ->
+  NoDup acks -> (forall a, In a acks <-> ack_of (p_id p) p a) -> acks <> [] ->
+  (forall a, ack_of (p_id p) p a -> member_ack s (p_id p) a) /\
+  pend (sto (fst (run c s acks))) = None /\ completed (sto (fst (run c s acks))) = p_id p /\
+  Forall (fun b => o_res b = 0) (snd (run c s acks)) /\ stat (fst (run c s acks)) = Running.
+Proof. exact checkpoints_resume_inflight_proof. Qed.
+Print Assumptions checkpoints_resume_inflight.
+
+(* the surviving operator: after a (re)deploy the barriers of the next checkpoint, from all its runners in any
+   order, are accepted and the last one completes the checkpoint - whatever slot the failed assembly left *)
+Theorem operator_slot_resumes : forall q o runners order id,
+  q_keep_slot q = false -> sorted runners -> runners <> [] ->
+  NoDup order -> (forall x, In x order <-> In x runners) ->
+  let o1 := oper_deploy q o runners in
+  exists pre_rs, snd (oper_barriers o1 order id) = pre_rs ++ [2] /\ Forall (fun r => r = 0) pre_rs /\
+                 o_slot (fst (oper_barriers o1 order id)) = None.
+Proof. exact operator_slot_resumes_proof. Qed.
+Print Assumptions operator_slot_resumes.
+
+(* ---- the code before the repairs violates checkpoints_resume (D18a, D30, D18b): computed witnesses, each
+   replayed on the implementation by corpus/job/*.json *)
+Theorem checkpoints_resume_refuted_keep_pending :
+  let c := cfg_of (MkQuirks true false false) in
+  let s := exec c hist_d18 in
+  stat s = Running /\ a_ops s = [1] /\ a_srs s = [0] /\
+  forall k, let s' := fst (run c s (repeat OTick k ++ [OAckOp 1 1; OAckSr 0 1; OAckOp 1 2; OAckSr 0 2; OTick])) in
+            completed (sto s') = 0 /\ o_started (snd (step c s' OTick)) = [].
+Proof. exact checkpoints_resume_refuted_keep_pending_proof. Qed.
+Print Assumptions checkpoints_resume_refuted_keep_pending.
+
+Theorem checkpoints_resume_refuted_splitters :
+  let c := cfg_of (MkQuirks false true false) in
+  let s := exec c hist_d30 in
+  stat s = Running /\ a_ops s = [1] /\ a_srs s = [0] /\ pend (sto s) = None /\
+  map o_res (snd (run c s [OTick; OAckOp 1 2; OAckSr 0 2])) = [0; 0; 2] /\
+  completed (sto (fst (run c s [OTick; OAckOp 1 2; OAckSr 0 2]))) = 1.
+Proof. exact checkpoints_resume_refuted_splitters_proof. Qed.
+Print Assumptions checkpoints_resume_refuted_splitters.
+
+Theorem operator_slot_refuted :
+  let o1 := fst (oper_barriers (oper_deploy original (MkOper [] None) [0; 1]) [0] 4) in
+  snd (oper_barriers (oper_deploy original o1 [0; 1]) [1; 0] 6) = [1; 3].
+Proof. exact operator_slot_refuted_proof. Qed.
+Print Assumptions operator_slot_refuted.
+
+(* ---- non-vacuity: the hypotheses are satisfiable, the conclusions are reached on a history with faults *)
+Definition c2 : cfg := MkCfg 2 5000 current.
+(* two operators + standby, two runners; deploy; checkpoint 1 half acknowledged; operator 0 is killed (heartbeats stop,
+   the others keep beating); expiry; redeploy on [1,2]; checkpoint 2 completes *)
+Definition hist_kill : list op :=
+  [ORegOp 0; ORegOp 1; ORegOp 2; ORegSr 0; ORegSr 1; OFin true; OTick; OAckOp 1 1; OAckSr 0 1;
+   OAdv 3000; ORegOp 1; ORegOp 2; ORegSr 0; ORegSr 1; OAdv 3000; ORegOp 1; ORegOp 2; OFin true].
+Example kill_history_recovers :
+  let s := exec c2 hist_kill in
+  stat s = Running /\ a_ops s = [1; 2] /\ a_srs s = [0; 1] /\ pend (sto s) = None /\ ctr (sto s) = 1 /\
+  completed (sto (fst (run c2 s [OTick; OAckSr 1 2; OAckOp 2 2; OAckOp 1 2; OAckSr 0 2]))) = 2.
+Proof. vm_compute. repeat split; reflexivity. Qed.
+Example kill_history_deploys :
+  map o_deps (snd (run c2 init hist_kill)) =
+  [[]; []; []; []; [MkDep [0; 1] [0; 1] [0; 0] true]; []; []; []; []; []; []; []; []; []; []; []; [MkDep [1; 2] [0; 1] [0; 0] true]; []].
+Proof. vm_compute. reflexivity. Qed.
+Example kill_history_statuses :
+  map o_status (snd (run c2 init hist_kill)) = [0; 0; 0; 0; 2; 3; 3; 3; 3; 3; 3; 3; 3; 3; 3; 1; 2; 3].
+Proof. vm_compute. reflexivity. Qed.
